@@ -325,3 +325,79 @@ func RunDeadGuard(w *World, r *Report, fns []*ssa.Function) {
 		}
 	}
 }
+
+// RunTwinGuarded is the name-independent anchor of twinformula for one pair
+// of methods: the set of *guarded* size formulas (formulas with a conditional
+// contribution g{…}) that the integer locals of the two methods compute must
+// be the same set.  A formula that is duplicated in both methods — whatever
+// the locals are called — is then kept in step; a conditional term present in
+// one method and missing in the other is reported.  Both sets empty (the
+// formula moved into a shared helper) is agreement by construction.
+func RunTwinGuarded(w *World, r *Report, pkgRel, typ, m1, m2 string) {
+	r.Rule("twinguarded: the guarded size formulas (those with a conditional term) computed by integer locals of " + typ + "." + m1 + " and " + typ + "." + m2 + " form the same set, whatever the locals are called: the layout one method predicts is the layout the other writes")
+	pkg := w.All[modPath+"/"+pkgRel]
+	if pkg == nil {
+		r.Fatal("package %s not loaded", pkgRel)
+		return
+	}
+	forms := map[string]map[string]token.Pos{m1: {}, m2: {}}
+	found := map[string]bool{}
+	for _, f := range pkg.Syntax {
+		for _, d := range f.Decls {
+			fd, ok := d.(*ast.FuncDecl)
+			if !ok || fd.Recv == nil || fd.Body == nil || (fd.Name.Name != m1 && fd.Name.Name != m2) {
+				continue
+			}
+			rt := fd.Recv.List[0].Type
+			if st, ok := rt.(*ast.StarExpr); ok {
+				rt = st.X
+			}
+			if types.ExprString(rt) != typ {
+				continue
+			}
+			found[fd.Name.Name] = true
+			seen := map[string]bool{}
+			ast.Inspect(fd.Body, func(n ast.Node) bool {
+				as, ok := n.(*ast.AssignStmt)
+				if !ok || as.Tok != token.DEFINE || len(as.Lhs) != 1 {
+					return true
+				}
+				id, ok := as.Lhs[0].(*ast.Ident)
+				if !ok || !isIntLike(pkg.TypesInfo.TypeOf(id)) || seen[id.Name] {
+					return true
+				}
+				seen[id.Name] = true
+				form, pos, ok := fragmentForm(w, pkg.TypesInfo, fd.Body, id.Name)
+				if ok && strings.Contains(form, "g{") {
+					forms[fd.Name.Name][form] = pos
+				}
+				return true
+			})
+		}
+	}
+	key := r.MkKey("twinguarded", shortName(modPath+"/"+pkgRel)+"."+typ, m1+"/"+m2)
+	if !found[m1] || !found[m2] {
+		r.Fail("twinguarded", key, "-", "one of the two methods does not exist", nil)
+		return
+	}
+	var problems []string
+	var pos token.Pos
+	for _, pair := range [][2]string{{m1, m2}, {m2, m1}} {
+		for form, p := range forms[pair[0]] {
+			if _, ok := forms[pair[1]][form]; !ok {
+				problems = append(problems, fmt.Sprintf("%s computes %s, %s has no local with that formula", pair[0], form, pair[1]))
+				if !pos.IsValid() {
+					pos = p
+				}
+			} else if !pos.IsValid() {
+				pos = p
+			}
+		}
+	}
+	sort.Strings(problems)
+	if len(problems) == 0 {
+		r.OK("twinguarded", key, w.Pos(pos), fmt.Sprintf("%d guarded formula(s) in each method, identical", len(forms[m1])))
+	} else {
+		r.Fail("twinguarded", key, w.Pos(pos), strings.Join(problems, "; ")+": the two methods lay out the same data and must count the same bytes", nil)
+	}
+}
